@@ -11,7 +11,7 @@ def gen(rng, tier, n):
         udpmaxq = rng.choice([0, 0, 1, 2])
         steps = []
         tok = 0
-        shape = rng.choice(["idle-reuse", "busy-reuse", "late-round-reuse", "late-round-reuse", "fresh", "mixed", "mixed", "slow-callback", "slow-callback"])
+        shape = rng.choice(["idle-reuse", "busy-reuse", "late-round-reuse", "late-round-reuse", "fresh", "mixed", "mixed", "slow-callback", "slow-callback", "wait-recheck"])
         nq = rng.randint(1, 4)
         if shape == "idle-reuse":
             steps += ["q:%d:ans%d.example" % (tok, tok), "settle", "sleep:%d" % rng.choice([20, 60])]
@@ -43,6 +43,14 @@ def gen(rng, tier, n):
             tok += 1
             steps += ["q:%d:sil%d.example" % (tok, tok)]
             tok += 1
+        elif shape == "wait-recheck":
+            # the queue drains and becomes non-empty again within one hold of the channel lock (a
+            # completion callback cancels and issues a follow-up): a waiter woken by the notification
+            # must look again.  No app-thread request after bgwait (see the driver).
+            tries = 1
+            timeout = rng.choice([250, 300])
+            steps += ["qc:%d:sil%d.example:%d:sil%d.example" % (tok, tok, tok + 1, tok + 1), "bgwait:%d" % rng.choice([3000, 5000])]
+            tok += 2
         elif shape == "fresh":
             steps += ["q:%d:sil%d.example" % (tok, tok)]
             tok += 1
